@@ -129,6 +129,16 @@ func topicInit(t *Topic, join *ClientComMessage, h *Hub) {
 		t.reg <- join
 	}
 
+	if t.cat == types.TopicCatGrp || t.cat == types.TopicCatP2P {
+		// The owner (either party of a p2p topic) may have been suspended or re-activated while the
+		// topic was loading: the hub could not tell whose topic this is before the subscribers were
+		// read, and the state read at the start of the load is stale. Now that the subscribers are
+		// known the hub does reach the topic, read the state again.
+		if stopic, err := store.Topics.Get(t.name); err == nil && stopic != nil {
+			t.markReadOnly(stopic.State == types.StateSuspended)
+		}
+	}
+
 	t.markPaused(false)
 	if t.cat == types.TopicCatFnd || t.cat == types.TopicCatSys {
 		t.markLoaded()
